@@ -259,6 +259,10 @@ type Obligation struct {
 	Cover   bool   // cover check: the goal must be satisfiable (sat expected)
 	Info    bool   // informational cover (reachability of a call site)
 	CoverPre *Obligation
+	Parts    []Term // the goal as independently checkable parts (one per function exit); nil = single goal
+	FailPart int
+	failParts []int
+	PartPos   []string
 	Result  string // unsat (discharged) | sat | unknown | timeout | error
 	Backend string
 	Ms      int64
